@@ -48,6 +48,9 @@ pub struct GenParams {
     /// probability that a requirement gets an additional alternative that matches nothing,
     /// placed first or in the middle (a union with an empty member that is not the last)
     pub p_union_empty: f64,
+    /// probability that the second constrains entry of a solvable is about the same package
+    /// as the first (two different version sets of one package)
+    pub p_cons_same: f64,
 }
 
 impl GenParams {
@@ -78,6 +81,7 @@ impl GenParams {
             lone_last: false,
             p_union_same: 0.15,
             p_union_empty: 0.0,
+            p_cons_same: 0.0,
         }
     }
 
@@ -446,6 +450,26 @@ impl GenParams {
                 root_reqs: (1, 3),
                 ..b
             },
+            "multicons" => GenParams {
+                // solvables with two constrains entries on ONE package, several direct
+                // requirements, few candidates: unsolvable problems whose explanation lists both
+                // constraints of one solvable (C06: their order must not depend on a hash seed)
+                pkgs: (3, 5),
+                cands: (2, 3),
+                p_keep: 0.45,
+                p_allow_empty: 0.0,
+                reqs: (0, 2),
+                p_cons: 0.9,
+                p_cons_same: 0.9,
+                p_missing: 0.0,
+                p_unknown: 0.0,
+                p_lock: 0.0,
+                p_excl: 0.0,
+                root_reqs: (2, 4),
+                root_full: true,
+                p_root_union: 0.0,
+                ..b
+            },
             "tiny" => GenParams {
                 pkgs: (2, 3),
                 cands: (1, 2),
@@ -670,9 +694,15 @@ pub fn gen_universe(rng: &mut Rng, g: &GenParams) -> (Universe, Problem) {
             }
         }
         let mut cons = Vec::new();
+        let mut first_cons_target: Option<u32> = None;
         for _ in 0..2 {
             if rng.chance(g.p_cons) {
-                if let Some(j) = pick_target(rng, i) {
+                let tgt = match first_cons_target {
+                    Some(j0) if rng.chance(g.p_cons_same) => Some(j0),
+                    _ => pick_target(rng, i),
+                };
+                if let Some(j) = tgt {
+                    first_cons_target.get_or_insert(j);
                     let v = mk_vs(rng, &u, j, false);
                     if !cons.contains(&v) {
                         cons.push(v);
